@@ -22,6 +22,7 @@ type SKnobs struct {
 	LogDebug    bool   `json:"log_debug"`
 	Crashes     int    `json:"crashes"`
 	RangeMode   int    `json:"range_mode"`
+	DoneMode    int    `json:"done_mode,omitempty"` // 1: loops that find their context cancelled always stop at once; 0: seeded coin
 }
 
 // HEvent is one step of the source Milvus: a catalog write, published messages, ticks, or an op message.
